@@ -19,6 +19,7 @@ from pysmt.solvers.solver import IncrementalTrackingSolver, SolverOptions
 from pysmt.solvers.portfolio import Portfolio
 from pysmt.decorators import clear_pending_pop
 from pysmt.logics import QF_LIA
+from pysmt.typing import INT as INT_
 
 DEPS = ("gen/Gen_Hist.tla", "AssertionStack.tla", "StackAlphabets.tla")
 
@@ -59,8 +60,15 @@ class TrackSolver(IncrementalTrackingSolver):
     def _add_assertion(self, formula, named=None):
         return formula
 
+    fail_next = False
+
     @clear_pending_pop
     def _solve(self, assumptions=None):
+        if self.fail_next:
+            # the back-end gives up on this query (a failing call: the stack must be as if it had never been made)
+            self.fail_next = False
+            from pysmt.exceptions import SolverReturnedUnknownResultError
+            raise SolverReturnedUnknownResultError()
         return True
 
     @clear_pending_pop
@@ -203,7 +211,19 @@ def run(ck):
                         # a one-shot query leaves the stack alone WHATEVER it asks: four of seven queries are about a
                         # constant (false / true / not false), which an implementation may answer without solving
                         qf_ = ck.rng.choice([fm[c["x"]]] * 3 + [mgr.FALSE(), mgr.FALSE(), mgr.TRUE(), mgr.Not(mgr.FALSE())])
-                        getattr(s, k)(qf_)
+                        # one query in five FAILS: the back-end raises "unknown", or the query formula is not Boolean
+                        # (rejected after the one-shot frame was opened) - a failing query is a no-op like any other query
+                        failing = ck.rng.randrange(10)
+                        if kind == "track" and failing == 0:
+                            s.fail_next = True
+                        elif failing == 1:
+                            qf_ = mgr.Plus(mgr.Symbol("x", INT_), mgr.Int(1))
+                        try:
+                            getattr(s, k)(qf_)
+                        except Exception:
+                            if failing > 1:
+                                raise
+                        s.fail_next = False
                     obs.append(observe(s, public))
                 # the final observation is always through the public property
                 obs[-1] = observe(s, True)
